@@ -490,6 +490,26 @@ Fixpoint lookup (r : env) (x : string) : option value :=
   | (y, v) :: r' => if String.eqb x y then Some v else lookup r' x
   end.
 
+(* bytecodegen.rs `mir::Instruction::Float(n)`: a float constant is loaded as a half-precision immediate
+   (MoveImmF) whenever `HFloat::try_from(n)` succeeds, i.e. |f16(n) - n| < ALLOWED_ERROR = 0.00001
+   (utils/half_float.rs); otherwise from the constant table (exact). *)
+Definition f16_prec : Z := 11.
+Definition f16_emax : Z := 16.
+Definition to_f64 (q : num) : num :=       (* f16::to_f64: exact *)
+  match q with
+  | S754_finite s m e => binary_normalize f64_prec f64_emax (cond_Zopp s (Zpos m)) e s
+  | _ => q
+  end.
+Definition f16_of (q : num) : num :=       (* f16::from_f64 (round to nearest even), read back as f64 *)
+  match q with
+  | S754_finite s m e => to_f64 (binary_normalize f16_prec f16_emax (cond_Zopp s (Zpos m)) e s)
+  | _ => q
+  end.
+Definition ALLOWED_ERROR : num := S754_finite false 5902958103587057 (-69).   (* 0.00001 *)
+Definition imm_round (q : num) : num :=
+  let hv := f16_of q in
+  if SFltb (SFabs (SFsub f64_prec f64_emax hv q)) ALLOWED_ERROR then hv else q.
+
 (* a value without closures (what a combinator may receive) *)
 Fixpoint is_data (v : value) : bool :=
   match v with
@@ -864,7 +884,7 @@ Fixpoint ev (n : nat) : env -> expr -> res value :=
     | EEscape _ => Err Stuck
     | ELit l =>
         match l with
-        | LFloat q => Ok (VNum q)
+        | LFloat q => Ok (VNum (imm_round q))       (* MoveImmF / MoveConst *)
         | LInt z => Ok (VInt z)
         | LString s => Ok (VStr s)
         | LTy t => Ok (VTy t)
@@ -923,10 +943,63 @@ Fixpoint ev (n : nat) : env -> expr -> res value :=
 
 Definition rebuild (n : nat) (r : env) : expr -> res expr := rebuild_with (ev n r).
 
+(* What compiling the stage-0 program checks before anything runs: every variable is bound or names an
+   external function ("Variable ... not found in this scope"), and no node that translate_staging left
+   untranslated remains.  Returns the first complaint. *)
+Fixpoint pat_binders (p : pat) : list string :=
+  match p with
+  | PSingle s => [s]
+  | PPlaceholder | PError => []
+  | PTuple l => flat_map pat_binders l
+  | PRecord l => flat_map (fun f => pat_binders (snd f)) l
+  end.
+
+Fixpoint mpat_binders (p : mpat) : list string :=
+  match p with
+  | MVar s => [s]
+  | MLit _ | MWild => []
+  | MCtor _ inner => match inner with Some i => mpat_binders i | None => [] end
+  | MTuple l => flat_map mpat_binders l
+  end.
+
+Definition first_err (l : list (option err)) : option err :=
+  fold_right (fun a b => match a with Some e => Some e | None => b end) None l.
+
+Fixpoint scope0 (bound : list string) (e : expr) {struct e} : option err :=
+  let opt b o := match o with Some x => scope0 b x | None => None end in
+  let fields b fs := first_err (map (fun f : string * expr => scope0 b (snd f)) fs) in
+  match e with
+  | EVar x => if existsb (String.eqb x) bound || is_extern x then None else Some (Unbound x)
+  | ELit LPlaceHolder => Some Stuck
+  | ELit _ => None
+  | EQualifiedVar _ | EBracket _ | EEscape _ | EBinOp _ _ _ | EUniOp _ _ | EMacroExpand _ _ | EError => Some Stuck
+  | EBlock b => opt bound b
+  | ETuple es | EArrayLiteral es => first_err (map (scope0 bound) es)
+  | EProj x _ | EFieldAccess x _ | EParen x => scope0 bound x
+  | EArrayAccess a b | EAssign a b => first_err [scope0 bound a; scope0 bound b]
+  | ERecordLiteral fs | EImcompleteRecord fs => fields bound fs
+  | ERecordUpdate r fs => first_err [scope0 bound r; fields bound fs]
+  | EApply f args => first_err (scope0 bound f :: map (scope0 bound) args)
+  | ELambda ps _ body =>
+      first_err (map (fun p => match p with (_, _, d) => opt bound d end) ps
+                 ++ [scope0 (map (fun p => match p with (x, _, _) => x end) ps ++ bound) body])%list
+  | EThen a b => first_err [scope0 bound a; opt bound b]
+  | EFeed x body => scope0 (x :: bound) body
+  | ELet p _ v body => first_err [scope0 bound v; opt (pat_binders p ++ bound)%list body]
+  | ELetRec x _ v body => first_err [scope0 (x :: bound) v; opt (x :: bound) body]
+  | EIf c t el => first_err [scope0 bound c; scope0 bound t; opt bound el]
+  | EMatch s arms =>
+      first_err (scope0 bound s :: map (fun a : mpat * expr => scope0 (mpat_binders (fst a) ++ bound)%list (snd a)) arms)
+  end.
+
 (* the whole expansion pipeline of compile_with_module_info on a staged program:
-   translate, run on the stage-0 VM, take the code value *)
+   translate, compile (scope check), run on the stage-0 VM, take the code value *)
 Definition expand (n : nat) (k : nat) (p : expr) : res expr :=
-  do v <- ev n [] (fst (translate p k)); as_code v.
+  let st0 := fst (translate p k) in
+  match scope0 [] st0 with
+  | Some e => Err e
+  | None => do v <- ev n [] st0; as_code v
+  end.
 
 (* ------------------------------------------------------------------------------------------ *)
 (* The normal form the translation imposes on quoted code (what decode . encode does to one     *)
@@ -1025,6 +1098,7 @@ with norm1 (e : expr) (k : nat) {struct e} : expr * nat :=
   match e with
   | EEscape inner => let '(i', k1) := norm0 inner k in (EEscape i', k1)
   | EBracket inner => let '(i', k1) := norm1 inner k in (EBlock (Some i'), k1)      (* nested quote -> block *)
+  | ELit (LFloat q) => (ELit (LFloat (imm_round q)), k)       (* the literal is loaded by the stage-0 VM *)
   | ELit _ => (e, k)
   | EVar _ => (e, k)
   | EApply f args =>
